@@ -66,9 +66,19 @@ def load_known_findings(prop):
 
 # --------------------------------------------------------------------- one run
 
+def run_guarded(mod, ch, cfg):
+    """mod.run_one with the 'a simulated run is executing' flag up (see sim.boot)."""
+    from sim import boot as _boot
+    _boot.IN_RUN[0] += 1
+    try:
+        return mod.run_one(ch, cfg)
+    finally:
+        _boot.IN_RUN[0] -= 1
+
+
 def execute(mod, cfg, seed=None, prescribed=None):
     ch = Choices(seed=seed, prescribed=prescribed)
-    res = mod.run_one(ch, cfg)
+    res = run_guarded(mod, ch, cfg)
     res["choices"] = ch.record
     res["labels"] = ch.labels
     return res
@@ -110,7 +120,7 @@ def _worker(args):
                 seed = derive_seed(base_seed, mod.PROPERTY, "enum", idx)
                 ch = _PrefixChoices(prefix, seed)
                 t0 = time.perf_counter()
-                res = mod.run_one(ch, cfg)
+                res = run_guarded(mod, ch, cfg)
                 _check_alignment(mod, ch, prefix, idx)
                 res["choices"] = ch.record
                 res["labels"] = ch.labels
@@ -430,7 +440,7 @@ def _mutant_child(args):
             seed = derive_seed(base_seed, mod.PROPERTY, "enum", idx)
             ch = _PrefixChoices(prefix, seed)
             try:
-                res = mod.run_one(ch, cfg)
+                res = run_guarded(mod, ch, cfg)
             except BaseException as e:
                 return (name, True, n, "harness-exception:%s" % type(e).__name__)
             n += 1
